@@ -203,7 +203,11 @@ def r_arith(F, V):
                 key = "raw::TableLayout::new|ctrl_align"
                 op = rv["ops"][rv["fields"].index("ctrl_align")]
                 S = sources(body, op)
-                has_align = any(c.endswith("Layout::align") for c in S.calls)
+                roles = _param_roles(F, "raw::TableLayout::new")
+                al_params = set(l for l, r_ in roles.items() if r_ == "align")
+                sz_params = set(l for l, r_ in roles.items() if r_ == "size")
+                _is_al = lambda S_: any(c.endswith("Layout::align") or c.endswith("mem::align_of") for c in S_.calls) or bool(S_.args & al_params)
+                has_align = _is_al(S)
                 has_w = any(c.get("val") == W for c in S.consts) or any("WIDTH" in (c.get("def") or "") for c in S.consts)
                 has_cmp = bool({"Gt", "Lt", "Ge", "Le"} & S.binops) or any(c.endswith("::max") for c in S.calls)
                 # every value the field can take is one of the two candidates (the element alignment or the group width)
@@ -221,21 +225,27 @@ def r_arith(F, V):
                                     stray.append("constant %s" % rvd["op"].get("val"))
                             elif rvd["k"] == "use" and rvd["op"]["k"] in ("copy", "move"):
                                 Sd = sources(body, rvd["op"], follow_phi=False)
-                                if not (any(c.endswith("Layout::align") for c in Sd.calls) and not any(c.endswith("Layout::size") for c in Sd.calls)):
+                                if not (_is_al(Sd) and not any(c.endswith("Layout::size") or c.endswith("mem::size_of") for c in Sd.calls) and not (Sd.args & sz_params)):
                                     stray.append("a copied value not from Layout::align")
                             else:
                                 stray.append("a computed value (%s)" % rvd["k"])
                 # direction: the alignment of T is chosen on the edge where it is the larger one
                 if not stray and op["k"] in ("copy", "move") and not op["p"].get("proj"):
                     from rules.lookup import _relation
-                    is_al = lambda S_: any(c.endswith("Layout::align") for c in S_.calls)
-                    is_w = lambda S_: (any(c.get("val") == W or "WIDTH" in (c.get("def") or "") for c in S_.consts)) and not S_.calls
+                    is_al = _is_al
+                    is_w = lambda S_: (any(c.get("val") == W or "WIDTH" in (c.get("def") or "") for c in S_.consts)) and not S_.calls and not S_.args
                     for d in body.defs.get(op["p"]["l"], ()):
-                        if d[0] == "call" and (callee_path(d[3]) or "").endswith("Layout::align"):
-                            rels = [_relation(body, bb, sx, is_al, is_w) for (bb, sx) in body.control_deps_trans(d[1], "all")]
+                        takes_align = (d[0] == "call" and (callee_path(d[3]) or "").endswith("Layout::align")) or \
+                            (d[0] == "stmt" and d[3]["k"] == "assign" and d[3]["rv"]["k"] == "use" and d[3]["rv"]["op"]["k"] in ("copy", "move")
+                             and not d[3]["rv"]["op"]["p"].get("proj") and d[3]["rv"]["op"]["p"]["l"] in al_params)
+                        if takes_align:
+                            deps = list(body.control_deps_trans(d[1], "all"))
+                            rels = [_relation(body, bb, sx, is_al, is_w) for (bb, sx) in deps]
                             rels = [r for r in rels if r]
                             if rels and not any(r in (">", ">=") for r in rels):
                                 stray.append("the element alignment is selected when it is the SMALLER one (align %s WIDTH): ctrl_align becomes min instead of max" % rels[0])
+                            if deps and not rels:
+                                stray.append("the choice between the element alignment and the group width is not decided by comparing those two values")
                 if stray:
                     R.violation(key, body, "TableLayout.ctrl_align can take a value that is neither the element alignment nor the group width (%s): the allocation alignment would not be a valid "
                                 "power-of-two alignment covering both the elements and the control groups" % ", ".join(sorted(set(stray))), line=line_of(body, stmt=s))
@@ -247,10 +257,32 @@ def r_arith(F, V):
                     R.inst(key, "ctrl_align is not max(align, WIDTH)", "violation", True, where(body, stmt=s))
                 op2 = rv["ops"][rv["fields"].index("size")]
                 S2 = sources(body, op2)
-                if not any(c.endswith("Layout::size") for c in S2.calls):
+                if not (any(c.endswith("Layout::size") or c.endswith("mem::size_of") for c in S2.calls) or (S2.args & sz_params)):
                     R.violation("raw::TableLayout::new|size", body, "TableLayout.size is not Layout::new::<T>().size()", line=line_of(body, stmt=s))
     R.floor("size-arithmetic sites judged", n, {"posctl": 1}.get(F.cfg, 12))
     return R
+
+
+def _param_roles(F, fn):
+    """{parameter local: 'align' | 'size'} for the parameters of crate function `fn` that receive, at every call site (constant
+    initialisers included), the alignment resp. the size of a type (mem::align_of / Layout::align, mem::size_of / Layout::size)"""
+    b = F.bodies.get(fn)
+    if b is None:
+        return {}
+    seen = {}
+    for p, body in F.bodies.items():
+        for i, t in body.calls():
+            if callee_path(t) != fn:
+                continue
+            for q, a in enumerate(t["args"]):
+                S = sources(body, a)
+                role = None
+                if any(c.endswith("mem::align_of") or c.endswith("Layout::align") for c in S.calls) and not any(c.endswith("size_of") or c.endswith("Layout::size") for c in S.calls):
+                    role = "align"
+                elif any(c.endswith("mem::size_of") or c.endswith("Layout::size") for c in S.calls) and not any(c.endswith("align_of") or c.endswith("Layout::align") for c in S.calls):
+                    role = "size"
+                seen.setdefault(q + 1, set()).add(role)
+    return {l: list(rs)[0] for l, rs in seen.items() if len(rs) == 1 and list(rs)[0]}
 
 
 def _ordinal(body, block, name):
@@ -475,6 +507,35 @@ def r_hash_taint(F, V):
 # abstract classes of usize values used as bucket / control-byte indices in the raw module
 from core import PASS_THROUGH
 
+def resolve_field(body, l, fe, depth=0):
+    """the operand a field (projection element fe) of local l was built from, following the local through moves, through
+    struct / tuple construction and through fields of other locally built values (`(item, vacated) = helper()` after
+    inlining: vacated.index -> ret.1.index -> VacatedBucket { index, .. }); None if it is not built in this body"""
+    if depth > 8:
+        return None
+    d = body.single_def(l)
+    if not (d and d[0] == 'stmt' and d[3]['k'] == 'assign' and not d[3]['p'].get('proj')):
+        return None
+    rv = d[3]['rv']
+    if rv['k'] == 'aggregate':
+        idx = fe.get('i')
+        if rv.get('fields') and fe.get('name') in rv['fields']:
+            idx = rv['fields'].index(fe['name'])
+        if idx is not None and idx < len(rv['ops']):
+            return rv['ops'][idx]
+        return None
+    if rv['k'] == 'use' and rv['op']['k'] in ('copy', 'move'):
+        q = rv['op']['p']
+        pj = q.get('proj') or []
+        if not pj:
+            return resolve_field(body, q['l'], fe, depth + 1)
+        if len(pj) == 1 and pj[0]['k'] == 'field':
+            inner = resolve_field(body, q['l'], pj[0], depth + 1)
+            if inner is not None and inner['k'] in ('copy', 'move') and not inner['p'].get('proj'):
+                return resolve_field(body, inner['p']['l'], fe, depth + 1)
+    return None
+
+
 def cls(body, o, depth=0):
     if depth>30: return 'UNKNOWN:deep'
     if o['k']=='const':
@@ -500,19 +561,21 @@ def cls(body, o, depth=0):
             return 'UNKNOWN:downcast'
         # a field of a local struct / tuple built in this body carries the class of the operand it was built from
         if p.get('proj') and len(p['proj'])==1 and p['proj'][0]['k']=='field':
-            d=body.single_def(p['l'])
-            if d and d[0]=='stmt' and d[3]['k']=='assign' and d[3]['rv']['k']=='aggregate' and not d[3]['p'].get('proj'):
-                rv=d[3]['rv']
-                idx=p['proj'][0].get('i')
-                if idx is None and rv.get('fields') and lf['name'] in rv['fields']:
-                    idx=rv['fields'].index(lf['name'])
-                if idx is not None and idx < len(rv['ops']):
-                    return cls(body, rv['ops'][idx], depth+1)
+            o2=resolve_field(body, p['l'], p['proj'][0])
+            if o2 is not None:
+                return cls(body, o2, depth+1)
         # a field of a by-value struct parameter (not self) is the caller's obligation like a plain parameter: the caller's
         # aggregate is classified operand by operand at the call site of the sink
-        if p.get('proj') and len(p['proj'])==1 and p['proj'][0]['k']=='field' and body.is_arg(p['l']) and p['l']!=1 \
-                and body.locals[p['l']]['ty'].get('k')=='adt':
-            return 'PARAM:%s.%s'%(body.locals[p['l']].get('name','_%d'%p['l']), lf['name'])
+        if p.get('proj') and len(p['proj'])==1 and p['proj'][0]['k']=='field':
+            base=p['l']
+            for _ in range(6):
+                if body.is_arg(base): break
+                d=body.single_def(base)
+                if d and d[0]=='stmt' and d[3]['k']=='assign' and d[3]['rv']['k']=='use' and d[3]['rv']['op']['k'] in ('copy','move') and not d[3]['rv']['op']['p'].get('proj'):
+                    base=d[3]['rv']['op']['p']['l']
+                else: break
+            if body.is_arg(base) and (base!=1 or body.kind=='Closure') and not (body.kind=='Closure' and base==1) and body.locals[base]['ty'].get('k')=='adt':
+                return 'PARAM:%s.%s'%(body.locals[base].get('name','_%d'%base), lf['name'])
         return 'FIELD:%s'%lf['name']
     l=p['l']
     if body.is_arg(l): return 'PARAM:%s'%body.locals[l].get('name','_%d'%l)
@@ -551,6 +614,7 @@ def cls_call(body,t,depth,payload=False,field=None):
     if cp.endswith('Range as Iterator>::next') or cp.endswith('Range<usize> as core::iter::traits::iterator::Iterator>::next') or n=='next': return 'ITER:%s'%cp.split('::')[-3:]
     if cp.endswith('bucket_index') or cp.endswith('to_base_index'): return 'INDEXOF'
     if cp.endswith('unwrap_unchecked') or cp.endswith('Option::unwrap'): return cls(body,t['args'][0],depth+1)
+    if cp.endswith('Try>::branch') or cp.endswith('try_trait::Try::branch'): return cls(body,t['args'][0],depth+1)   # `x?`: the payload of x
     return 'CALL:%s'%n
 
 
@@ -688,6 +752,23 @@ def r_same_group(F, V):
                 if s["k"] == "assign" and s["rv"]["k"] == "binop" and s["rv"]["op"] == "Div" and s["rv"]["b"]["k"] == "const" and s["rv"]["b"].get("val") == W:
                     has = True
         if not has:
+            # no recognisable group-number computation. One necessary condition can still be decided: whether an element
+            # may stay where it is depends on where the probe sequence of *its hash* starts - a test on the two positions
+            # alone compares a fixed window and leaves elements in slots their lookups never reach.
+            if ab is not None:
+                from cond import controlling_sources
+                stay = [i for i, t in ab.calls() if (callee_path(t) or "").endswith("RawTableInner::set_ctrl_hash")]
+                dep = False
+                for c in stay:
+                    for (bb_, s_, S_) in controlling_sources(ab, c):
+                        if S_.has_call("probe_seq") or S_.has_call("raw::h1") or S_.has_call("is_in_same_group"):
+                            dep = True
+                if stay and not dep:
+                    key = alt + "|relative-to-probe-start"
+                    R.violation(key, ab, "the decision to leave an element in its slot during the in-place rehash (the arm that only rewrites its control byte) does not depend on the probe start of the element's hash "
+                                "(no probe_seq(hash) / h1(hash) in the controlling conditions): positions are compared in a fixed window, so an element can be left in a slot its lookups never reach - present keys are reported absent and can be inserted twice")
+                    R.inst(key, "stay-in-place decision independent of the hash's probe start", "violation", True, where(ab))
+                    return R
             R.undec("%s not found (and no inlined group-number computation in rehash_in_place)" % root)
             return R
         root, body = alt, ab
